@@ -48,7 +48,7 @@ type Launch struct {
 }
 
 // StraceSet is the syscall set traced for C11 (E-TRACE).
-const StraceSet = "openat,open,creat,write,pwrite64,writev,pwritev,pwritev2,copy_file_range,sendfile,ftruncate,fallocate,fsync,fdatasync,sync_file_range,rename,renameat,renameat2,unlink,unlinkat,rmdir,mkdir,mkdirat,link,linkat,close,dup,dup2,dup3,fcntl"
+const StraceSet = "openat,open,creat,write,pwrite64,writev,pwritev,pwritev2,copy_file_range,sendfile,ftruncate,fallocate,fsync,fdatasync,sync_file_range,rename,renameat,renameat2,unlink,unlinkat,rmdir,mkdir,mkdirat,link,linkat,close,dup,dup2,dup3,fcntl,chdir"
 
 func PtsupPath() string { return filepath.Join(vf.Root, "bin", "ptsup") }
 
@@ -681,7 +681,7 @@ func (w *World) Run(steps []Step, from int) (int, error) {
 			if serr != nil {
 				return i, serr
 			}
-			if f := strings.Fields(line); f[0] == "restore" && len(f) >= 2 && kv(f[2:], "rep", "") == "" {
+			if f := strings.Fields(line); f[0] == "restore" && len(f) >= 2 && kv(f[2:], "rep", "") == "" && kv(f[2:], "bare", "") == "" {
 				exp := w.LastAck()
 				if t := kv(f[2:], "txid", ""); t != "" {
 					exp = nil
